@@ -130,6 +130,14 @@ FunctorManager::Env FunctorManager::createEnv(Context& caller, unsigned id, cons
     _ctx->recursion(r + 1);
     _ctx->trace(caller.trace());
     _ctx->returnCondition(false);
+    /* local variables start every call unset: reset the recycled storage
+     * from the pristine context, as createChildRuntime does for a new one */
+    const Context * pristine = entry.functor->ctx;
+    for (size_t i = 0; i < _ctx->_storage_pool.size() && i < pristine->_storage_pool.size(); ++i)
+    {
+      *(_ctx->_storage_pool[i].symbol) = *(pristine->_storage_pool[i].symbol);
+      _ctx->_storage_pool[i].value = Value(*(pristine->_storage_pool[i].symbol));
+    }
   }
 
   assert(entry.functor->params.size() == pvals.size());
